@@ -315,6 +315,15 @@ pub fn universe(mapping: &[u8], rng: &mut Rng, cfg: &UniCfg) -> Vec<Query> {
             }
         }
     }
+    // the same dotted path split at another dot: ("a.b", "c") vs ("a", "b.c")
+    for (cname, methods) in merged.iter().take(6) {
+        if let (Some(dot), Some(m)) = (cname.rfind('.'), methods.keys().next()) {
+            let (pre, suf) = (&cname[..dot], &cname[dot + 1..]);
+            q.push(Query::Method(pre.to_string(), format!("{}.{}", suf, m)));
+            q.push(Query::FrameLine { class: pre.to_string(), method: format!("{}.{}", suf, m), line: 1, file: None });
+            q.push(Query::Method(cname.clone(), m.clone()));
+        }
+    }
     // queries nobody asks: control characters, dots in method names, odd parameter strings, odd files
     if let Some((cname, methods)) = merged.iter().next() {
         let m0 = methods.keys().next().cloned().unwrap_or_else(|| "a".into());
